@@ -142,3 +142,43 @@ Theorem C10_hashpower_stays_within_maximum :
   uprase_gen c hash mode t k v g = (t', r) -> up_post c hash t k v g t' r.
 Proof. exact uprase_gen_good_capped. Qed.
 Print Assumptions C10_hashpower_stays_within_maximum.
+
+(* ---- limits with pending stripes (LazyRefine.v) ---- *)
+From LC Require Import LazyRefine.
+Theorem C10_limits_checked_before_doubling_with_pending_stripes :
+  forall (c : config) (hash : N -> N),
+  cfg_ok c ->
+  forall t : table,
+  nothrow c = true ->
+  lgood c hash t ->
+  let hp := bhp (cur t) in
+  (maxed t (hp + 1) -> cuckoo_fast_double c hash false t hp = (t, inl EMaxHashpower)) /\
+  (~ maxed t (hp + 1) ->
+  lf_lt_mlf c t = true -> cuckoo_fast_double c hash false t hp = (t, inl ELoadFactorTooLow)) /\
+  (~ maxed t (hp + 1) ->
+  lf_lt_mlf c t = false ->
+  cuckoo_fast_double c hash false t hp = (fast_double_body c hash false t (hp + 1), inr St_ok) /\
+  (hp + 1 < 60 ->
+  let t' := fast_double_body c hash false t (hp + 1) in
+  lgood c hash t' /\
+  bhp (cur t') = hp + 1 /\
+  (forall (k : N) (v : Z), lholds c t' k v <-> lholds c t k v) /\
+  lim_same t t' /\ rc t' = wrap64 (rc t + 1))).
+Proof. exact cuckoo_fast_double_lgood. Qed.
+Print Assumptions C10_limits_checked_before_doubling_with_pending_stripes.
+
+Theorem C10_rebuild_with_pending_stripes :
+  forall (c : config) (hash : N -> N),
+  cfg_ok c ->
+  forall (auto : bool) (t : table) (new_hp : N),
+  lgood c hash t ->
+  limC c (mhp t) ->
+  let r := cuckoo_expand_simple c hash auto false t new_hp in
+  (maxed t new_hp -> r = (t, inl EMaxHashpower)) /\
+  (~ maxed t new_hp -> auto = true -> lf_lt_mlf c t = true -> r = (t, inl ELoadFactorTooLow)) /\
+  (~ maxed t new_hp ->
+  (auto = true -> lf_lt_mlf c t = false) ->
+  r = cuckoo_expand_simple c hash auto false (rehash_with_workers c hash t) new_hp) /\
+  les_post c hash auto t new_hp r.
+Proof. exact cuckoo_expand_simple_lgood. Qed.
+Print Assumptions C10_rebuild_with_pending_stripes.
